@@ -16,6 +16,7 @@ fixed("D2", "C02", "c57900f", "ROLLBACK logged as COMMIT: a rolled-back transact
 fixed("D12", "C09", "f2bd205", "after flush()/VACUUM the same handle failed with out-of-memory then 'table not found' (cache capacity set to 0)")
 fixed("D22", "C01", "821425a", "after a checkpoint persisted last_committed >= 1 no later acknowledged commit survived a crash (redo decoded logged rows through its own snapshot)")
 fixed("D4", "C08", "05bfa59", "crash after checkpoint page writes, before log truncation, with CREATE in the log: open failed with 'already exists'")
+fixed("D13", "C12", "58da8f5", "caches of 24-56 pages: after a few hundred page accesses every statement failed with 'Buffer pool got out of memory' (eviction cursor never wrapped)", "O-res", "findings/D13-eviction-cursor-never-wraps-oom.json")
 fixed("D19", "C20", "dcce281", "6-byte Rows frame made the decoder request a >100 GB allocation and abort", "O-live:process-died", "findings/D19-rows-frame-huge-column-count.json")
 fixed("D19b", "C20", "f81eb12", "10-byte Rows frame with zero columns and a huge row count exhausted memory (one empty row pushed per announced row)", "O-live:process-died", "findings/D19b-rows-frame-zero-columns-huge-row-count.json")
 fixed("D36", "C16", "c23ba4a", "CREATE TABLE with PRIMARY KEY and UNIQUE aborted the process (overlapping copy in page defragmentation, UB check)")
